@@ -645,8 +645,11 @@ impl MetricsCollector {
         };
 
         // No failures = available (1.0 is correct for no data)
+        // `failed` is incremented on paths that never count a query in `total` (requests
+        // refused before execution), so it can exceed `total`: do not underflow (a panic in
+        // builds with overflow checks, a nonsensical availability otherwise).
         let availability = if total > 0 {
-            (total - failed) as f64 / total as f64
+            total.saturating_sub(failed) as f64 / total as f64
         } else {
             1.0
         };
